@@ -34,7 +34,7 @@ func rankInstant(base time.Time, tok string, cache map[string]time.Time) (time.T
 			return inst, true
 		}
 		name := map[string]string{"p0": "z", "p1": "y1600", "f0": "y2300", "f1": "n300", "f2": "y9999", "f3": "u62"}[tok]
-		inst, _, ok := farInstant(name)
+		inst, _, ok := farInstant(name, base)
 		if ok {
 			cache[tok] = inst
 		}
